@@ -117,16 +117,21 @@ type vcPol struct {
 	Types []string
 	In    []model.Rule
 	Out   []model.Rule
+	// host-endpoint flavours
+	Fwd, PreDNAT, Untracked bool
 }
 
 func (p vcPol) mk() func() any {
 	return func() any {
 		m := &model.Policy{
-			Tier:          p.Tier,
-			Selector:      p.Sel,
-			Types:         append([]string(nil), p.Types...),
-			InboundRules:  append([]model.Rule(nil), p.In...),
-			OutboundRules: append([]model.Rule(nil), p.Out...),
+			Tier:           p.Tier,
+			Selector:       p.Sel,
+			Types:          append([]string(nil), p.Types...),
+			InboundRules:   append([]model.Rule(nil), p.In...),
+			OutboundRules:  append([]model.Rule(nil), p.Out...),
+			ApplyOnForward: p.Fwd,
+			PreDNAT:        p.PreDNAT,
+			DoNotTrack:     p.Untracked,
 		}
 		if p.Order != nil {
 			m.Order = vcF(*p.Order)
@@ -200,6 +205,12 @@ func vcUniversePol() *vcUniverse {
 			{Name: "t1o1both", Make: vcPol{Tier: "t1", Order: vcF(1), Sel: "all()", Types: []string{"ingress", "egress"}, In: []model.Rule{{Action: "deny"}}, Out: []model.Rule{{Action: "allow"}}}.mk()}, // ties with pA=t1o1in
 			{Name: "t1nilB1", Make: vcPol{Tier: "t1", Sel: "b == '1'", In: []model.Rule{{Action: "deny", NotSrcSelector: "a == '2'"}}}.mk()},
 			{Name: "t1o1norules", Make: vcPol{Tier: "t1", Order: vcF(1), Sel: "all()"}.mk()}, // valid but empty: no rules, no types
+			// host-endpoint flavours: apply-on-forward (egress-only / ingress-only / both), pre-DNAT, untracked
+			{Name: "fwdEg", Make: vcPol{Tier: "t1", Order: vcF(1), Sel: "all()", Types: []string{"egress"}, Fwd: true, Out: []model.Rule{{Action: "allow"}}}.mk()},
+			{Name: "fwdIn", Make: vcPol{Tier: "t2", Order: vcF(1), Sel: "all()", Types: []string{"ingress"}, Fwd: true, In: []model.Rule{{Action: "allow"}}}.mk()},
+			{Name: "fwdBoth", Make: vcPol{Tier: "t1", Order: vcF(1), Sel: "a == '1'", Fwd: true, In: []model.Rule{{Action: "allow"}}}.mk()},
+			{Name: "preDNAT", Make: vcPol{Tier: "t1", Order: vcF(1), Sel: "all()", Types: []string{"ingress"}, Fwd: true, PreDNAT: true, In: []model.Rule{{Action: "allow"}}}.mk()},
+			{Name: "untracked", Make: vcPol{Tier: "t1", Order: vcF(1), Sel: "all()", Fwd: true, Untracked: true, In: []model.Rule{{Action: "allow"}}, Out: []model.Rule{{Action: "allow"}}}.mk()},
 		}},
 	}}
 }
@@ -335,7 +346,7 @@ func vcUniverseRoute() *vcUniverse {
 			{Name: "h1", Make: vcBlock("10.0.1.0/30", vcLocal)},
 		}},
 		{Name: "w1", Key: vcWEPKey(vcLocal, "w1"), Vars: []vcVariant{
-			{Name: "in", Make: vcWEP("cali1", map[string]string{"a": "1"}, nil, []string{"10.0.1.1/32"})},   // inside the block (borrowed when the block is h2's)
+			{Name: "in", Make: vcWEP("cali1", map[string]string{"a": "1"}, nil, []string{"10.0.1.1/32"})},  // inside the block (borrowed when the block is h2's)
 			{Name: "tun", Make: vcWEP("cali1", map[string]string{"a": "1"}, nil, []string{"10.0.1.0/32"})}, // collides with h2's tunnel address
 		}},
 	}}
